@@ -69,6 +69,9 @@ class Enc:
             r = b
             for _ in range(t[2] - 1):
                 r = r * b
+        elif op == "app" and t[1] == "abs" and len(t[2]) == 1:
+            a = self.go(t[2][0])
+            r = z3.If(a >= 0, a, -a)
         elif op == "app":
             args = [self.go(a) for a in t[2]]
             args = [z3.ToReal(a) if a.is_int() else a for a in args]
